@@ -30,6 +30,8 @@ VariantActions ==
   \cup {[act |-> "CreateBid", t |-> x[1], d |-> x[2], g |-> x[3], o |-> x[4], p |-> x[5], price |-> Pr0, deposit |-> Bd0, pdenom |-> "f"] : x \in Bids}
   \cup {[act |-> "CreateBid", t |-> x[1], d |-> x[2], g |-> x[3], o |-> x[4], p |-> x[5], price |-> Pr0, deposit |-> Bd0, upper |-> TRUE] :
             x \in {y \in Bids : y[5] = y[1]}}
+  \* a provider record written with the owner's address in upper case (accepted: it is the same account)
+  \cup {[act |-> a, p |-> p, attrs |-> at, upper |-> TRUE] : a \in {"CreateProvider", "UpdateProvider"}, p \in Providers, at \in AttrChoices}
 
 ActionSet ==
        {[act |-> "CreateDeployment", t |-> t, d |-> d, groups |-> gs, deposit |-> dp, version |-> v] :
